@@ -24,13 +24,17 @@ func (p *LastUsedPoller) SetMultiTransport(tr *Transport) {
 // Get は次のTransportIDを返します。
 func (p *LastUsedPoller) Get() transport.TransportID {
 	if p.tr == nil {
-		return p.tr.currentTransportID
+		// not attached to a multi transport yet: nothing to select
+		return ""
 	}
 	p.tr.lastReadTransportIDmu.RLock()
-	defer p.tr.lastReadTransportIDmu.RUnlock()
 	tID := p.tr.lastReadTransportID
+	p.tr.lastReadTransportIDmu.RUnlock()
 	if tID != "" {
-		return p.tr.currentTransportID
+		return tID
 	}
-	return p.tr.lastReadTransportID
+	// nothing has been read yet: keep the current transport
+	p.tr.mu.RLock()
+	defer p.tr.mu.RUnlock()
+	return p.tr.currentTransportID
 }
